@@ -145,6 +145,163 @@ fn one_case(rng: &mut Rng, id: String) -> Case {
     case
 }
 
+
+/// Registry scripts (C08 / C19): seeded sequences of new / connect (to a live name, to the name of a server that has accepted
+/// or was dropped unused, to a name never handed out) / send / accept / drop server / receive through the public API, compared
+/// result by result with the `OneShot` model (request line `oneshot …`).  A rendezvous name is good for one connection
+/// (that is what "one-shot" promises on every transport), so a script connects at most once to a live server.
+fn registry_case(rng: &mut Rng, id: String) -> Case {
+    struct Srv {
+        server: Option<IpcOneShotServer<u64>>,
+        name: String,
+        conn: Option<usize>,
+    }
+    struct Conn {
+        tx: Option<IpcSender<u64>>,
+        rx: Option<ipc::IpcReceiver<u64>>,
+        queued: u64,
+    }
+    let mut case = Case::new(id);
+    let mut srvs: Vec<Srv> = Vec::new();
+    let mut conns: Vec<Conn> = Vec::new();
+    let (mut ops, mut res): (Vec<String>, Vec<String>) = (Vec::new(), Vec::new());
+    let mut tag = 100u64;
+    let steps = 4 + rng.below(14);
+    for _ in 0..steps {
+        match rng.below(12) {
+            0..=2 => {
+                ops.push("new 0".into());
+                match std::panic::catch_unwind(|| IpcOneShotServer::<u64>::new()) {
+                    Ok(Ok((server, name))) => {
+                        res.push(format!("server:{}", srvs.len()));
+                        srvs.push(Srv { server: Some(server), name, conn: None });
+                    },
+                    Ok(Err(e)) => {
+                        res.push("err".into());
+                        case.fail(format!("IpcOneShotServer::new failed: {:?}", e));
+                    },
+                    Err(_) => {
+                        res.push("panic".into());
+                        case.fail("IpcOneShotServer::new panicked (after an earlier failed connect?)".into());
+                    },
+                }
+            },
+            3..=5 => {
+                // a live name not connected to yet, a retired name, or one never handed out
+                let never = rng.below(4) == 0 || srvs.is_empty();
+                let (m, target) = if never {
+                    (900 + rng.below(50) as usize, format!("/nonexistent-{}/socket", rng.below(1000)))
+                } else {
+                    let m = rng.below(srvs.len() as u64) as usize;
+                    (m, srvs[m].name.clone())
+                };
+                if !never && srvs[m].server.is_some() && srvs[m].conn.is_some() {
+                    continue;
+                }
+                let live = !never && srvs[m].server.is_some();
+                ops.push(format!("connect {}", m));
+                match std::panic::catch_unwind(move || IpcSender::<u64>::connect(target)) {
+                    Ok(Ok(tx)) => {
+                        res.push(format!("conn:{}", conns.len()));
+                        if live {
+                            srvs[m].conn = Some(conns.len());
+                        } else {
+                            case.fail("connect to the name of a server that has accepted, was dropped unused or never existed succeeded".into());
+                        }
+                        conns.push(Conn { tx: Some(tx), rx: None, queued: 0 });
+                    },
+                    Ok(Err(_)) => {
+                        res.push("err".into());
+                        if live {
+                            case.fail("connect to a live server failed".into());
+                        }
+                    },
+                    Err(_) => {
+                        res.push("panic".into());
+                        case.fail("connect to the name of a server that has accepted, was dropped unused or never existed panicked instead of returning an error".into());
+                    },
+                }
+                case.tags.push(format!("connect={}", if live { "live" } else if never { "never" } else { "retired" }));
+            },
+            6 | 7 if conns.iter().any(|c| c.tx.is_some() && c.rx.is_none()) || conns.iter().any(|c| c.tx.is_some()) => {
+                let live: Vec<usize> = conns.iter().enumerate().filter(|(_, c)| c.tx.is_some()).map(|(i, _)| i).collect();
+                let c = live[rng.below(live.len() as u64) as usize];
+                // a client whose server went away unaccepted gets an error; the model knows (`reset`)
+                tag += 1;
+                ops.push(format!("csend {} {}", c, tag));
+                match conns[c].tx.as_ref().unwrap().send(tag) {
+                    Ok(()) => {
+                        res.push("ok".into());
+                        conns[c].queued += 1;
+                    },
+                    Err(_) => res.push("err".into()),
+                }
+            },
+            8 | 9 => {
+                // accept where it cannot block: the server's client has sent something
+                let cand: Vec<usize> = srvs.iter().enumerate()
+                    .filter(|(_, s)| s.server.is_some() && s.conn.map(|c| conns[c].queued > 0).unwrap_or(false)).map(|(i, _)| i).collect();
+                if cand.is_empty() {
+                    continue;
+                }
+                let sidx = cand[rng.below(cand.len() as u64) as usize];
+                let c = srvs[sidx].conn.unwrap();
+                let server = srvs[sidx].server.take().unwrap();
+                ops.push(format!("accept {}", sidx));
+                match with_watchdog(10, move || server.accept()) {
+                    Some(Ok((rx, t))) => {
+                        res.push(format!("accepted:{}:{}", c, t));
+                        conns[c].rx = Some(rx);
+                        conns[c].queued -= 1;
+                    },
+                    Some(Err(e)) => {
+                        res.push("err".into());
+                        case.fail(format!("accept failed: {:?}", e));
+                    },
+                    None => {
+                        res.push("blocks".into());
+                        case.fail("accept did not return although the client had connected and sent".into());
+                    },
+                }
+            },
+            10 if srvs.iter().any(|s| s.server.is_some()) => {
+                let live: Vec<usize> = srvs.iter().enumerate().filter(|(_, s)| s.server.is_some()).map(|(i, _)| i).collect();
+                let sidx = live[rng.below(live.len() as u64) as usize];
+                srvs[sidx].server = None;
+                ops.push(format!("dropsrv {}", sidx));
+                res.push("ok".into());
+                case.tags.push("server_dropped_unused".into());
+            },
+            _ => {
+                let live: Vec<usize> = conns.iter().enumerate().filter(|(_, c)| c.rx.is_some()).map(|(i, _)| i).collect();
+                if live.is_empty() {
+                    continue;
+                }
+                let c = live[rng.below(live.len() as u64) as usize];
+                ops.push(format!("recv {}", c));
+                match conns[c].rx.as_ref().unwrap().try_recv() {
+                    Ok(t) => {
+                        res.push(format!("msg:{}", t));
+                        conns[c].queued -= 1;
+                    },
+                    Err(ipc::TryRecvError::Empty) => res.push("empty".into()),
+                    Err(ipc::TryRecvError::IpcError(ipc::IpcError::Disconnected)) => res.push("disc".into()),
+                    Err(e) => {
+                        res.push("error".into());
+                        case.fail(format!("receive failed: {:?}", e));
+                    },
+                }
+            },
+        }
+    }
+    let live_srv = srvs.iter().filter(|s| s.server.is_some()).count();
+    let rxn = conns.iter().filter(|c| c.rx.is_some()).count();
+    case.pair(format!("oneshot {}", ops.join(" | ")), format!("{} ; fs={} listen={} rx={}", res.join(" "), live_srv, live_srv, rxn));
+    case.nontrivial = ops.len() > 2;
+    case.key = ops.join("|");
+    case
+}
+
 pub fn run(args: &[String]) {
     let thorough = arg(args, "--tier").as_deref() == Some("thorough");
     let seed = arg_u64(args, "--seed", 1);
@@ -152,6 +309,9 @@ pub fn run(args: &[String]) {
     let mut rng = Rng::new(seed ^ 0x0e5);
     for i in 0..n {
         one_case(&mut rng, format!("oneshotip-{}", i)).emit();
+    }
+    for i in 0..(if thorough { 3000 } else { 300 }) {
+        registry_case(&mut rng, format!("oneshotip-reg-{}", i)).emit();
     }
     // many servers alive at once: distinct names
     let mut c = Case::new("oneshotip-names".into());
